@@ -737,6 +737,11 @@ def run(ck):
     check_real_thread(ck, 18 if quick else 120)
     check_classification(ck, 16 if quick else 64)
     check_parallel(ck, 6 if quick else 40)
+    try:  # Ctrl-C inside the parallel scheduler's join: no process may be alive when the session ends
+        from corr import interrupt_join
+        interrupt_join.scenarios(ck)
+    except ImportError:
+        pass
     rng = ck.rng
     if quick:
         # SIGTERM while the third process of the session runs (the handler must still be ours), SIGINT at the first
@@ -749,6 +754,9 @@ def run(ck):
 
 def replay(ck, data):
     inp = data['input']
+    if inp.get('kind') == 'interrupt-join':
+        from corr import interrupt_join
+        return interrupt_join.replay(ck, data)
     if 'tree' in inp and 'recursively' in inp:
         # a tree case: the same comparison on exactly this input
         from rebench import subprocess_kill as skill
